@@ -32,7 +32,7 @@ func (t *ScalarType) Equals(o interface{}, g px.Guard) bool {
 
 func (t *ScalarType) IsAssignable(o px.Type, g px.Guard) bool {
 	switch o.(type) {
-	case *ScalarType, *ScalarDataType:
+	case *ScalarType, *ScalarDataType, *TimespanType, *TimestampType, *SemVerType:
 		return true
 	default:
 		return GuardedIsAssignable(stringTypeDefault, o, g) ||
